@@ -1,5 +1,14 @@
 #!/usr/bin/env python3
-# usage: mutants.py <id>...   (or "all")
+# Development aid of the H-llamarunner builder: seeded breakages of runner/llamarunner.
+# usage: bin/llamarunner-mutants.py <id>...   (or "all")
+# Needs /tmp/lr-fixed = a scratch worktree of /repo with the proposed fixes applied:
+#   git -C /repo worktree add --detach /tmp/lr-fixed HEAD
+#   git -C /tmp/lr-fixed apply /verif/findings/llamarunner-proposed-fix-1-*.diff /verif/findings/llamarunner-proposed-fix-2-*.diff
+# (so that the genuine findings of the unchanged tree do not answer for a mutant) and the
+# proposed known findings registered (bin/llamarunner-localknown) for the C14 mutants.
+# Each mutant: /tmp/lr-mut = fixed tree + mutation, quick check of the llamarunner stage,
+# replay on the mutant (exit 1) and on the fixed tree (exit 0). Writes seeded_self/<id>.diff
+# relative to the unchanged /repo.
 import subprocess, sys, os, shutil, json, re, time
 VERIF='/root/work/llamarunner'
 FIXED='/tmp/lr-fixed'      # /repo HEAD + proposed fixes
